@@ -6,6 +6,11 @@ from . import gridbank as gb
 from . import gridchecks as gc
 
 
+# the isolated X-point topology (four legs, no closed surfaces): examples/torpex-xpoint coils
+TORPEX_SIZES = dict(nx_core=4, nx_sol=4, ny_inner_lower_divertor=4, ny_inner_upper_divertor=4, ny_outer_upper_divertor=4, ny_outer_lower_divertor=4)
+TORPEX = gb.cfg("xpoint", dict(TORPEX_SIZES), kind="torpex", label="torpex-xpoint")
+
+
 def quick_set():
     P = dict(fpol="profile", pressure=True)
     return [
@@ -15,6 +20,7 @@ def quick_set():
         gb.cfg("udn", dict(orthogonal=True), label="udn-orth", **P),
         gb.cfg("ldn", dict(orthogonal=True), label="ldn-orth", **P),
         gb.cfg("usn", dict(orthogonal=True, psi_interpolation_method="dct"), label="usn-orth-dct", **P),
+        TORPEX,
     ]
 
 
@@ -53,6 +59,8 @@ def thorough_set():
         gb.cfg("lsn", dict(orthogonal=True), wall="box_cw", label="lsn-orth-clockwise-wall", **P),
         gb.cfg("lsn", dict(orthogonal=True), wall="many", label="lsn-orth-100-vertex-wall", **P),
         gb.cfg("lsn", dict(orthogonal=True), fpol="const", label="lsn-orth-constfpol"),
+        gb.cfg("xpoint", dict(TORPEX_SIZES, orthogonal=False), kind="torpex", label="torpex-xpoint-nonorth"),
+        gb.cfg("xpoint", dict(TORPEX_SIZES, y_boundary_guards=0), kind="torpex", label="torpex-xpoint-noguards"),
     ]
     return out
 
